@@ -36,3 +36,14 @@ Theorem C14_no_answer_for_foreign_destination : forall c a sa dest pgn,
   (if ca_acceptable c dest then request_outs c sa dest pgn else []) = [].
 Proof. exact no_answer_for_foreign_destination. Qed.
 Print Assumptions C14_no_answer_for_foreign_destination.
+
+(* T14.3 closed loop over two nodes: what send_request of an operational CA (address a) on node A hands to the bus is ONE
+   extended classic frame, and node B — any node that accepts the destination — dispatches it to its CAs with the requester's
+   address a, the destination and exactly the PGN asked for: every PGN of up to 24 bits, every destination incl. global *)
+Theorem C14_request_closed_loop : forall A i c a now pgn dest B t,
+  nth_error (n_cas A) i = Some c -> c_state c = ca_state_NORMAL -> c_addr c = Some a -> 0 <= a < 256 ->
+  0 <= dest < 256 -> 0 <= pgn < 16777216 -> accepts B dest = true ->
+  exists f, flat (ca_send_request A i now 0 pgn dest) = (A, [OTx f], RDone 0) /\ f_ext f = true /\ f_fd f = false /\
+            flat (notify B t (f_id f) (f_data f)) = (B, fanout_outs (n_cas B) a dest pgn, RDone 0).
+Proof. exact request_closed_loop. Qed.
+Print Assumptions C14_request_closed_loop.
